@@ -648,6 +648,12 @@ func (x *Exec) callFunction(fn *ssa.Function, args []Value, bind []Value) (ret V
 		n := x.stubCalls[name]
 		x.stubCalls[name] = n + 1
 		if canned, ok := seq[n]; ok {
+			if name == "encoding/json.MarshalIndent" && len(args) > 0 {
+				for len(x.marshalled) < n {
+					x.marshalled = append(x.marshalled, nilIface)
+				}
+				x.marshalled = append(x.marshalled, args[0]) // vMarshalled also answers for canned calls
+			}
 			x.calllog = append(x.calllog, name+"("+x.renderArgs(args)+")")
 			x.stubsHit["stub:"+name] = true
 			return x.cannedResult(fn, canned)
